@@ -102,6 +102,10 @@ def initDynamic (p : Pattern) (c : List Nat) : Option Extents :=
     some ⟨p, if rankDynamic p = 0 then [] else initFromFull p c⟩
   else none
 
+/-- `extents()` value-initialised (`E{}`, the default member initialisation used by the default constructors of the
+    mappings, of `mdspan` and of `mdarray`): every dynamic extent is 0 -/
+def Extents.dflt (p : Pattern) : Extents := ⟨p, List.replicate (rankDynamic p) 0⟩
+
 /-- the precondition of the constructors taking all `rank` values: static extents agree with the given values -/
 def compatible : Pattern → List Nat → Bool
   | [], [] => true
@@ -238,8 +242,13 @@ def allTuples : List Nat → List (List Nat)
 
 /-! ### mdspan.hh / mdarray.hh -/
 
-/-- `mdspan::size()` / `mdarray::size()`: `s = 1; for (r < rank) s *= extent(r)` -/
-def mdSize (rank : Nat) (E : Arr) : Nat := forLoop 0 rank (fun r s => s * E r) 1
+/-- `mdspan::size()`: `s = 1; for (r < rank) s *= extent(r)` (pieces regenerated from mdspan.hh) -/
+def mdSize (rank : Nat) (E : Arr) : Nat :=
+  forLoop (mdspan_size_lo rank E) (mdspan_size_hi rank E) (mdspan_size_step rank E) (mdspan_size_init rank E)
+
+/-- `mdarray::size()` (pieces regenerated from mdarray.hh) -/
+def mdarraySize (rank : Nat) (E : Arr) : Nat :=
+  forLoop (mdarray_size_lo rank E) (mdarray_size_hi rank E) (mdarray_size_step rank E) (mdarray_size_init rank E)
 
 /-- an md view or array: the mapping and the flat storage it addresses (`data_handle_[…]` / `container_[…]`) -/
 structure Md where
@@ -254,6 +263,13 @@ def Md.set (a : Md) (I : Arr) (v : Int) : Md := { a with data := a.data.set (a.m
 
 /-- `mdarray(const mapping_type& m)`: `container_(construct_container(m.required_span_size()))`, value-initialised -/
 def Md.new (m : Mapping) (v : Int := 0) : Md := ⟨m, List.replicate m.requiredSpan v⟩
+
+/-- `mdarray(const extents&/mapping&, const container_type& c)` (and the `&&`/allocator variants): the container is
+    taken as it is; precondition `c.size() >= required_span_size()` -/
+def Md.fromContainer (m : Mapping) (c : List Int) : Md := ⟨m, c⟩
+
+/-- `swap(x, y)`: containers (resp. data handles) and mappings are exchanged -/
+def Md.swap (x y : Md) : Md × Md := (⟨y.map, y.data⟩, ⟨x.map, x.data⟩)
 
 /-- `init_from_mdspan(other)`: nested loops over all index tuples, `container_[mapping_(ii...)] = other[ii...]` -/
 def initFromMdspan (a : Md) (other : Md) (tuples : List (List Nat)) : Md :=
@@ -291,6 +307,26 @@ def Span.subspan (s : Span) (offset : Nat) (count : Option Nat) : Option Span :=
   match count with
   | none => if offset ≤ s.size then some ⟨s.off + offset, s.size - offset⟩ else none
   | some c => if offset ≤ s.size ∧ c ≤ s.size - offset then some ⟨s.off + offset, c⟩ else none
+
+/-- the sub-view operations (run-time and template forms behave alike on offset and size) -/
+inductive SpanOp where
+  | first (count : Nat)
+  | last (count : Nat)
+  | sub (offset : Nat) (count : Option Nat)
+  deriving Repr
+
+def Span.apply (s : Span) : SpanOp → Option Span
+  | .first c => s.first c
+  | .last c => s.last c
+  | .sub o c => s.subspan o c
+
+/-- a history of sub-view operations, each applied to the result of the previous one; `none` as soon as an asserted
+    precondition fails -/
+def Span.run (s : Span) : List SpanOp → Option Span
+  | [] => some s
+  | op :: ops => match s.apply op with
+    | some t => t.run ops
+    | none => none
 
 /-- `subspan_extent(O, C)` of a span with static extent `ext` (`none` = dynamic):
     `(C != dyn) ? C : (Extent != dyn) ? Extent - O : dyn` -/
